@@ -94,6 +94,22 @@ func (s *fwdSession) push(ev *contract.StarknetLogStateUpdate) (outs []*l1.State
 	}
 }
 
+// pushAdjacent delivers one geth event WITHOUT a sentinel behind it, so that the next event of the script reaches the
+// loop directly after this one (a sentinel between every two events would hide anything the loop remembers from one
+// event to the next, e.g. a "same as the last forwarded" suppression). The unmodified loop hands on exactly one
+// update per event; an event that produces none within the grace period counts as dropped.
+func (s *fwdSession) pushAdjacent(ev *contract.StarknetLogStateUpdate) (outs []*l1.StateUpdate, problem string) {
+	if !s.send(ev) {
+		return nil, "forwarding loop does not take the event"
+	}
+	select {
+	case u := <-s.out:
+		return []*l1.StateUpdate{u}, ""
+	case <-time.After(400 * time.Millisecond):
+		return nil, ""
+	}
+}
+
 // fail makes the geth subscription fail: the error must surface on Err(), the loop must end and
 // release the geth subscription.
 func (s *fwdSession) fail() string {
